@@ -1,5 +1,6 @@
 import Model.C09
 import Proofs.C08
+import Proofs.C08.Loop
 /-! Helper lemmas and proofs for C09. -/
 namespace PfC09
 open Ring C08 C09 PfC08
@@ -464,5 +465,96 @@ theorem waitAttempts_outage (reads : Nat → Read) : ∀ (k budget start : Nat),
       have := ih b (start + 1) (by omega) (fun j hj => by have := hfail (j + 1) (by omega); simpa [Nat.add_assoc, Nat.add_comm 1 j] using this)
         (by simpa [Nat.add_assoc, Nat.add_comm 1 k] using hok)
       omega
+
+/-! ### audit follow-up -/
+
+/-- a state change or read-only toggle that finds the own entry missing re-inserts it through `updateConsul`, i.e.
+exactly like the heartbeat: remembered tokens, fresh registration time -/
+theorem lc_update_reregisters {c : Cfg} {l : Local} {file : File} {din : Option Desc} {ev : Event} {now : Int} {gen : Gen}
+    (hk : c.kind = .LC) (hs : l.started = true) (habs : Desc.get? (din.getD []) c.id = none)
+    (hev : (∃ s, ev = .changeState s ∧ allowed l.state s = true) ∨ (∃ r, ev = .changeRO r ∧ l.ro ≠ r)) :
+    ∃ b, (step c l file din ev now gen .none).out = .write (put (din.getD []) b) ∧ b.id = c.id ∧ b.tokens = l.tokens ∧
+      b.regTs = now ∧ b.ts = now ∧ (step c l file din ev now gen .none).l.regTs = now := by
+  rcases hev with ⟨s, rfl, hal⟩ | ⟨r, rfl, hne⟩
+  · simp only [step, hk, hs, Bool.not_true, Bool.false_eq_true, if_false, lcChangeState, hal, if_true, lcUpdate, reduceCtorEq, habs]
+    refine ⟨_, rfl, ?_, ?_, ?_, ?_, ?_⟩ <;> first | rfl | trivial
+  · simp only [step, hk, hs, Bool.not_true, Bool.false_eq_true, if_false, lcChangeRO, hne, lcUpdate, reduceCtorEq, habs]
+    refine ⟨_, rfl, ?_, ?_, ?_, ?_, ?_⟩ <;> first | rfl | trivial
+
+/-- BasicLifecycler: EVERY handler that goes through `updateInstance` (heartbeat, verifyTokens, ChangeState,
+ChangeReadOnlyState, the stopping delegate) and finds the entry missing re-inserts it registered now -/
+theorem blc_any_reregisters_fresh {c : Cfg} {l : Local} {file : File} {din : Option Desc} {ev : Event} {now : Int} {gen : Gen}
+    {d' : Desc} {b : Inst} (hk : c.kind = .BLC) (hs : l.started = true) (habs : Desc.get? (din.getD []) c.id = none)
+    (hev : ev = .heartbeat ∨ ev = .verify ∨ (∃ s, ev = .changeState s) ∨ (∃ r, ev = .changeRO r) ∨ ev = .stopDelegate)
+    (h : (step c l file din ev now gen .none).out = .write d') (hb : Desc.get? d' c.id = some b) :
+    b.regTs = now := by
+  have key : ∀ u : Desc → Inst → Upd, KeepsId u → (∀ d i, (u d i).inst.regTs = i.regTs) →
+      (blcUpdateInstance c l file din now .none u).1.out = .write d' → b.regTs = now := by
+    intro u hu hreg hout
+    simp only [blcUpdateInstance, reduceCtorEq, if_false, habs, Option.isSome_none, Bool.false_and, Bool.false_eq_true,
+      Option.getD_none, CasOut.write.injEq] at hout
+    subst hout
+    rw [get?_put] at hb
+    have hid : (u (put (din.getD []) (blcReinsert c l now)) (blcReinsert c l now)).inst.id = c.id := hu _ _
+    split at hb
+    · simp [hid] at hb; subst hb; simp [hreg, blcReinsert]
+    · simp [hid] at hb; subst hb; simp [hreg, blcReinsert]
+  rcases hev with rfl | rfl | ⟨s, rfl⟩ | ⟨r, rfl⟩ | rfl <;>
+    simp only [step, hk, hs, Bool.not_true, Bool.false_eq_true, if_false] at h
+  · exact key _ (keepsId_hb c now) (fun _ _ => rfl) h
+  · exact key _ (keepsId_verify c l gen) (by intro d i; unfold updVerify; split <;> rfl) h
+  · exact key _ (keepsId_state s) (by intro d i; unfold updState; split <;> rfl) h
+  · exact key _ (keepsId_ro r now) (by intro d i; unfold updRO; split <;> rfl) h
+  · exact key _ (keepsId_state _) (by intro d i; unfold updState; split <;> rfl) h
+
+/-- restart over an entry left PENDING or JOINING with a well-formed token list (strictly sorted, not longer than
+configured): after `initRing` and the join timer the entry has exactly `numTokens` strictly sorted tokens, the old
+ones among them, the new ones in nobody's list -/
+theorem restart_join_tokens {c : Cfg} {file : File} {d : Desc} {e : Inst} {shuf : List Nat} {now : Int} {gen : Gen} (l : Local)
+    (hk : c.kind = .LC) (he : Desc.get? d c.id = some e) (hst : e.state = .JOINING ∨ e.state = .PENDING)
+    (hg : GenOK gen) (hsorted : e.tokens.Pairwise (· < ·)) (hle : e.tokens.length ≤ c.numTokens) :
+    let r1 := step c l file (some d) (.init shuf) now gen .none
+    let st1 := commit (some d) r1 .none
+    let r2 := step c r1.l r1.file st1 .joinTimer now gen .none
+    ∃ d' b, r2.out = .write d' ∧ Desc.get? d' c.id = some b ∧ b.regTs = e.regTs ∧
+      b.tokens.length = c.numTokens ∧ b.tokens.Pairwise (· < ·) ∧ (∀ t ∈ e.tokens, t ∈ b.tokens) ∧ r2.l.tokens = b.tokens ∧
+      (∀ t ∈ b.tokens, t ∈ e.tokens ∨ ∀ i ∈ st1.getD [], t ∉ i.tokens) := by
+  intro r1 st1 r2
+  have hnd : e.tokens.Nodup := hsorted.imp (fun h => by omega)
+  -- after initRing: remembered PENDING, started, registration time of the entry, and the ring still holds e's tokens
+  have h1 : r1.l.started = true ∧ r1.l.state = .PENDING ∧ r1.l.regTs = e.regTs ∧ tokensOf (st1.getD []) c.id = e.tokens := by
+    rcases hst with hj | hp
+    · have := init_died_joining (file := file) (shuf := shuf) (now := now) (gen := gen) (fault := .none) hk (by decide) he hj l
+      simp only [] at this
+      refine ⟨this.1, this.2.1, this.2.2.2.1, ?_⟩
+      have hout := this.2.2.2.2.1
+      simp only [st1, r1, commit_write hout, Option.getD_some, tokensOf, he]
+    · have hj : e.state ≠ .JOINING := by rw [hp]; decide
+      have hl : e.state ≠ .LEAVING := by rw [hp]; decide
+      have := init_resumes_other (file := file) (shuf := shuf) (now := now) (gen := gen) (fault := .none) hk (by decide) he hj hl l
+      simp only [] at this
+      refine ⟨this.1, by rw [this.2.1, hp], this.2.2.2.1, ?_⟩
+      cases ho : r1.out with
+      | write d1 =>
+        simp only [st1, commit_write ho, Option.getD_some, tokensOf]
+        have hpres := write_has_own (c := c) (l := l) (file := file) (din := some d) (e := .init shuf) (now := now) (gen := gen) (by simp) ho
+        obtain ⟨b1, hb1⟩ := Option.isSome_iff_exists.mp hpres
+        rw [hb1]
+        exact (this.2.2.2.2 d1 b1 ho hb1).2.1
+      | noCas | declined | cbErr =>
+        simp only [st1, commit_nowrite (r := r1) (by intro x; rw [ho]; simp), Option.getD_some, tokensOf, he]
+  obtain ⟨d', b, h2, h3, _, _, h5, h6, h7, h8, h9⟩ :=
+    lc_join_tokens (c := c) (l := r1.l) (file := r1.file) (din := st1) (now := now) (gen := gen) (fault := .none) hk h1.1 h1.2.1 hg
+      (by decide) (by rw [h1.2.2.2]; exact hnd) (by rw [h1.2.2.2]; exact hle)
+  refine ⟨d', b, h2, h3, ?_, h6, h7, by rw [← h1.2.2.2]; exact h8, h5, by rw [← h1.2.2.2]; exact h9⟩
+  -- registration time: the join publishes the remembered one
+  have : r2.out = .write d' := h2
+  simp only [r2, step, hk, h1.1, Bool.not_true, Bool.false_eq_true, if_false, lcJoinTimer, h1.2.1, if_true, lcAutoJoin, reduceCtorEq,
+    CasOut.write.injEq] at this
+  subst this
+  rw [get?_put] at h3
+  simp [lcInst] at h3
+  subst h3
+  simp [lcInst, h1.2.2.1]
 
 end PfC09
